@@ -478,9 +478,7 @@ func withWatchdog(d time.Duration, hung *bool, f func()) {
 		defer close(done)
 		protect(f)
 	}()
-	select {
-	case <-done:
-	case <-time.After(d):
+	if _, ok := patientRecv(done, d); !ok {
 		*hung = true
 	}
 }
